@@ -1,5 +1,7 @@
 import Slu.Model.Struct
 import SluProofs.Lemmas.SymbPack
+import SluProofs.Lemmas.SymbContain
+import SluProofs.Props.C02
 import Mathlib.Tactic.Ring
 import Mathlib.Tactic.Linarith
 import Mathlib.Data.List.Nodup
@@ -11,6 +13,15 @@ implementation returns (`wfSC` is the same test with a message).  Here: its soun
 the property's clauses written with quantifiers (`WF`), the meaning of the `countnz` formulae, and
 the two list facts the symbolic factorization relies on (marker-filtered lists are duplicate-free;
 `fixupL` puts a supernode's own columns first).
+
+Then the model `Slu.Symb.symbNaive` (the set-level symbolic factorization that predicts the whole returned
+structure): it always returns a well-formed structure (`symbNaive_wf`, `symbNaive_WF`), and it is SOUND
+with respect to the numeric factorization (last section): every numerically nonzero entry of the exact
+factors L, U of `B = Pr·A·Pc` lies inside the predicted structure, so the storage laid out from the
+symbolic phase can hold the factors and no entry is dropped —
+  `column_struct_contains_numeric`  Stage 1: the classical column-level structure contains the factors;
+  `symbNaive_contains_factors`      Stages 1+2 for ANY exact factorization `B = L·U` over a field;
+  `symbNaive_contains_numeric`      the same for the factors computed by the numeric model `LU.luFactor`.
 -/
 namespace Slu.Struct
 open Slu
@@ -295,3 +306,157 @@ example : (symbNaive 3 2 exCols (fun j => if j = 0 then some 1 else none)).rows 
 
 end Slu.Symb
 
+/-! ### Soundness: the predicted structure contains every nonzero of the exact factors
+
+Rows in PIVOT numbering (`B = Pr·A·Pc`; the pivot of column `j` is row `j`), as in `Slu.Symb`.  The pattern
+handed to the symbolic model is any `cols` with `B(i,j) ≠ 0 → i ∈ cols j`.  Lemmas/SymbSound.lean (Stage 1:
+column level, `ColReach` / `ColStruct` / `ColUStruct`), Lemmas/SymbContain.lean (Stage 2: `symbNaive`
+contains the column-level structure; `colReachL_iff`: the column-level structure is what `Symb.reach`
+computes when every column is its own supernode).
+
+Relaxed supernodes (R1) need `RelaxOk n cols relaxEnd`: no column of a relaxed supernode `[j..k]` has an
+entry in a row above `j`.  This is what R1's "no U part outside the supernode" presupposes, and it is
+NECESSARY (an entry `B(r,c) ≠ 0`, `r < j ≤ c ≤ k`, generically gives `U(r,c) ≠ 0`, which the prediction
+`ucols[c] = []` does not hold).  It follows from the fact that a relaxed supernode is a subtree of the
+column elimination tree with all its descendants (Lemmas/Relax.lean proves that for `relaxSnode` on a
+postordered forest) when that tree is the column etree of B; this last implication — from the etree of
+`AᵀA` to the pattern of `Pr·A·Pc` in pivot numbering — is NOT proved here, `RelaxOk` is a hypothesis.
+With `relaxEnd = fun _ => none` it holds trivially (`relaxOk_none`). -/
+namespace Slu.Symb
+open Slu Slu.Struct
+
+theorem relaxOk_none (n : Nat) (cols : Nat → List Nat) : RelaxOk n cols (fun _ => none) := by
+  intro j k h; cases h
+
+/-- **C03 (soundness, Stage 1: column level).**  For ANY exact factorization `B = L·U` of an `n × n` matrix
+over a field — L unit lower triangular, U upper triangular with nonzero diagonal, so L and U are THE factors
+without row interchanges of B — and any pattern `cols` covering the nonzeros of B: every nonzero of `L(:,j)`
+lies in the column-level structure `struct(j) = {j} ∪ {r > j : r ∈ reach(j)}` and every nonzero of `U(:,j)` in
+`{j} ∪ {k < j : k ∈ reach(j)}`, where `reach(j)` is the closure of the rows of `B(:,j)` under "a reached
+row `k < j` adds the rows of `struct(k)`".  This is the heart of the soundness of symbolic factorization:
+the update of column `j` by column `k` happens only if `U(k,j) ≠ 0`, i.e. only for reached `k`, and then
+adds at most the rows of `struct(k)`. -/
+theorem column_struct_contains_numeric {K : Type} [Field K] (n : Nat) (B L U : Nat → Nat → K) (cols : Nat → List Nat)
+    (hcols : ∀ i < n, ∀ j < n, B i j ≠ 0 → i ∈ cols j)
+    (hB : ∀ i < n, ∀ j < n, B i j = ∑ t ∈ Finset.range n, L i t * U t j)
+    (hL1 : ∀ i < n, L i i = 1) (hL0 : ∀ i < n, ∀ t < n, i < t → L i t = 0)
+    (hU0 : ∀ t < n, ∀ j < n, j < t → U t j = 0) (hUd : ∀ j < n, U j j ≠ 0) :
+    ∀ j < n, (∀ i < n, L i j ≠ 0 → ColStruct cols j i) ∧ (∀ k < n, U k j ≠ 0 → ColUStruct cols j k) :=
+  colStruct_contains_LU n B L U cols hcols hB hL1 hL0 hU0 hUd
+
+/-- **C03 (soundness of the predicted structure, any exact factorization).**  Same setting; any `maxsuper`,
+any `relaxEnd` with `RelaxOk`.  For every column `j`, with `s = supno[j]` its predicted supernode:
+every nonzero `L(i,j)` has its row `i` in the row list of `s` at or after position `j - xsup[s]` (the part
+of the shared list that column `j` stores: the rows `j..last(s)` and the rows below the supernode), and
+every nonzero `U(k,j)` has its row `k` among the predicted U rows of column `j` or among the rows
+`xsup[s] .. j` of the supernode's own dense block. -/
+theorem symbNaive_contains_factors {K : Type} [Field K] (n maxsuper : Nat) (B L U : Nat → Nat → K)
+    (cols : Nat → List Nat) (relaxEnd : Nat → Option Nat)
+    (hcols : ∀ i < n, ∀ j < n, B i j ≠ 0 → i ∈ cols j)
+    (hB : ∀ i < n, ∀ j < n, B i j = ∑ t ∈ Finset.range n, L i t * U t j)
+    (hL1 : ∀ i < n, L i i = 1) (hL0 : ∀ i < n, ∀ t < n, i < t → L i t = 0)
+    (hU0 : ∀ t < n, ∀ j < n, j < t → U t j = 0) (hUd : ∀ j < n, U j j ≠ 0)
+    (hrelax : RelaxOk n cols relaxEnd) :
+    let o := symbNaive n maxsuper cols relaxEnd
+    ∀ j < n,
+      (∀ i < n, L i j ≠ 0 → i ∈ (o.rows[o.supno[j]!]!).drop (j - o.xsup[o.supno[j]!]!)) ∧
+      (∀ k < n, U k j ≠ 0 → k ∈ o.ucols[j]! ∨ (o.xsup[o.supno[j]!]! ≤ k ∧ k ≤ j)) := by
+  intro o j hj
+  obtain ⟨h1, h2⟩ := colStruct_contains_LU n B L U cols hcols hB hL1 hL0 hU0 hUd j hj
+  obtain ⟨g1, g2⟩ := symbNaive_contains_colStruct n maxsuper cols relaxEnd hrelax j hj
+  exact ⟨fun i hi hne => g1 i (h1 i hi hne), fun k hk hne => g2 k (h2 k hk hne)⟩
+
+/-- **C03 (soundness of the predicted structure, numeric model).**  Let the numeric model `LU.luFactor`
+(exact arithmetic over a field, any threshold `0 ≤ u ≤ 1` — `u = 0` is `DiagPivotThresh = 0` —, any
+candidate order, any reuse state) factor a square matrix successfully, choosing the diagonal pivots: the
+rows are already in pivot numbering, `piv k = k`.  Then for any pattern `cols` covering the nonzeros of the
+matrix, any `maxsuper`, any `relaxEnd` with `RelaxOk`: every nonzero of the computed column `L(:,j)` lies in
+the part of the predicted row list of `j`'s supernode that column `j` stores, and every nonzero of the
+computed `U(0..j, j)` lies in the predicted U rows of column `j` or in the supernode's own block. -/
+theorem symbNaive_contains_numeric {K : Type} [Field K] [Mag K Rat] (laws : LU.MagLaws K) (P : LU.Params K Rat)
+    (hu0 : 0 ≤ P.u) (hu1 : P.u ≤ 1) (hcol : ∀ j, (P.col j).size = P.m) (hsq : P.m = P.n) (b : Bool)
+    (hinfo : (LU.luFactor P b).info = 0) (hpiv : ∀ k < P.n, (LU.luFactor P b).piv.getD k 0 = k)
+    (maxsuper : Nat) (cols : Nat → List Nat) (relaxEnd : Nat → Option Nat)
+    (hcols : ∀ i < P.n, ∀ j < P.n, (P.col j).get i ≠ 0 → i ∈ cols j)
+    (hrelax : RelaxOk P.n cols relaxEnd) :
+    let o := symbNaive P.n maxsuper cols relaxEnd
+    ∀ j < P.n,
+      (∀ i, ((LU.luFactor P b).L.getD j #[]).get i ≠ 0 → i ∈ (o.rows[o.supno[j]!]!).drop (j - o.xsup[o.supno[j]!]!)) ∧
+      (∀ k, ((LU.luFactor P b).U.getD j #[]).getD k 0 ≠ 0 → k ∈ o.ucols[j]! ∨ (o.xsup[o.supno[j]!]! ≤ k ∧ k ≤ j)) := by
+  intro o j hj
+  rw [LU.luFactor_eq_run] at hinfo hpiv ⊢
+  have inv := LU.run_inv laws P hu0 hu1 hcol b P.n hinfo
+  obtain ⟨h1, h2⟩ := LU.inv_colStruct P _ P.n hsq inv hpiv cols hcols j hj
+  obtain ⟨g1, g2⟩ := symbNaive_contains_colStruct P.n maxsuper cols relaxEnd hrelax j hj
+  exact ⟨fun i hne => g1 i (h1 i hne), fun k hne => g2 k (h2 k hne)⟩
+
+/-! non-vacuity: a 4x4 matrix with fill-in, diagonal pivots (`u = 0`, the diagonal is preferred)
+
+        4 1 . 1                                   L(3,1) = -1/15 although B(3,1) = 0   (fill in L)
+    B = 1 4 . .     columns 0,1 and 2,3 form      U(1,3) = -1/4  although B(1,3) = 0   (fill in U)
+        . . 4 1     T2 supernodes
+        1 . 1 4                                                                                     -/
+def fillCols : Nat → LU.Vec Rat
+  | 0 => #[4, 1, 0, 1]
+  | 1 => #[1, 4, 0, 0]
+  | 2 => #[0, 0, 4, 1]
+  | _ => #[1, 0, 1, 4]
+
+def fillP : LU.Params Rat Rat :=
+  { m := 4, n := 4, col := fillCols, u := 0, order := fun _ => [0, 1, 2, 3], oldPiv := fun _ => 0, diagRow := fun j => j }
+
+/-- the pattern of the matrix -/
+def fillPat : Nat → List Nat := fun j => (List.range 4).filter fun i => (fillCols j).get i != 0
+
+example : (List.range 4).map fillPat = [[0, 1, 3], [0, 1], [2, 3], [0, 2, 3]] := by decide +kernel
+example : (LU.luFactor fillP false).L.getD 1 #[] = #[0, 1, 0, -1/15] := by decide +kernel
+example : (LU.luFactor fillP false).U.getD 3 #[] = #[1, -1/4, 1, 209/60] := by decide +kernel
+/-- the column-level structure (Stage 1), computed: `struct(1) = {1, 3}`, `reach(3) = {0, 2, 3, 1}` -/
+example : colStructL fillPat 1 = [1, 3] ∧ colReachL fillPat 3 = [0, 2, 3, 1] := by decide +kernel
+example : (symbNaive 4 2 fillPat (fun _ => none)).xsup = [0, 2, 4] ∧ (symbNaive 4 2 fillPat (fun _ => none)).supno = [0, 0, 1, 1] ∧
+    (symbNaive 4 2 fillPat (fun _ => none)).rows = [[0, 1, 3], [2, 3]] ∧
+    (symbNaive 4 2 fillPat (fun _ => none)).ucols = [[], [], [], [0, 1]] := by decide +kernel
+
+/-- all hypotheses of `symbNaive_contains_numeric` hold for this matrix (no relaxed supernode) … -/
+theorem fill_contains :
+    let o := symbNaive 4 2 fillPat (fun _ => none)
+    ∀ j < 4,
+      (∀ i, ((LU.luFactor fillP false).L.getD j #[]).get i ≠ 0 → i ∈ (o.rows[o.supno[j]!]!).drop (j - o.xsup[o.supno[j]!]!)) ∧
+      (∀ k, ((LU.luFactor fillP false).U.getD j #[]).getD k 0 ≠ 0 → k ∈ o.ucols[j]! ∨ (o.xsup[o.supno[j]!]! ≤ k ∧ k ≤ j)) :=
+  symbNaive_contains_numeric LU.magLaws_rat fillP (le_refl _) (by decide)
+  (by intro j; match j with | 0 => rfl | 1 => rfl | 2 => rfl | (_ + 3) => rfl) rfl false
+  (by decide +kernel) (by decide +kernel) 2 fillPat (fun _ => none) (by decide +kernel) (relaxOk_none _ _)
+
+/-- … and the theorem places the fill entry `L(3,1) ≠ 0 = B(3,1)` in the stored part `[1, 3]` of the row
+list `[0, 1, 3]` of supernode 0, and the fill entry `U(1,3) ≠ 0 = B(1,3)` in the predicted U column `[0, 1]` -/
+example : (fillCols 1).get 3 = 0 ∧ ((LU.luFactor fillP false).L.getD 1 #[]).get 3 ≠ 0 ∧
+    3 ∈ ((symbNaive 4 2 fillPat (fun _ => none)).rows[0]!).drop 1 :=
+  ⟨by decide +kernel, by decide +kernel, (fill_contains 1 (by decide)).1 3 (by decide +kernel)⟩
+example : (fillCols 3).get 1 = 0 ∧ ((LU.luFactor fillP false).U.getD 3 #[]).getD 1 0 ≠ 0 ∧
+    1 ∈ (symbNaive 4 2 fillPat (fun _ => none)).ucols[3]! :=
+  ⟨by decide +kernel, by decide +kernel,
+   ((fill_contains 3 (by decide)).2 1 (by decide +kernel)).resolve_right (by decide +kernel)⟩
+
+/-- with a relaxed supernode `[0..1]` (`relax_end[0] = 1`; `RelaxOk` holds: nothing lies above row 0) the
+hypotheses hold as well -/
+example := symbNaive_contains_numeric LU.magLaws_rat fillP (le_refl _) (by decide)
+  (by intro j; match j with | 0 => rfl | 1 => rfl | 2 => rfl | (_ + 3) => rfl) rfl false
+  (by decide +kernel) (by decide +kernel) 2 fillPat (fun j => if j = 0 then some 1 else none) (by decide +kernel)
+  (by
+    intro j k h c hc _ r _
+    by_cases hj : j = 0
+    · omega
+    · simp [hj] at h)
+
+/-- `RelaxOk` cannot be dropped: declaring `[2..3]` a relaxed supernode although column 3 has an entry in
+row 0 makes the prediction lose `U(0,3) = 1` (R1 gives the columns of a relaxed supernode no U part) -/
+example : ¬ RelaxOk 4 fillPat (fun j => if j = 2 then some 3 else none) := by
+  intro h
+  have := h 2 3 rfl 3 (by decide) (by decide) 0 (by decide +kernel)
+  omega
+example :
+    let o := symbNaive 4 2 fillPat (fun j => if j = 2 then some 3 else none)
+    ((LU.luFactor fillP false).U.getD 3 #[]).getD 0 0 ≠ 0 ∧ 0 ∉ o.ucols[3]! ∧ ¬ o.xsup[o.supno[3]!]! ≤ 0 := by
+  decide +kernel
+
+end Slu.Symb
